@@ -204,7 +204,7 @@ CHECKS = {
                 "drain) a state identifier declared by its prologue template, and emits none on the Static / wildcard arm; delegate — it takes its whole OperatorWriteOutput from another operator and "
                 "does not drop write_tick_end; restricted — it rejects all but one persistence with an error diagnostic. Unclassifiable operators are reported. The values operators compute are NOT "
                 "decided (needs a reference interpreter).",
-        "note": "Generated code itself is not analysed here (no corpus); C24.skeleton decides that tick-end code runs once per tick after all subgraphs.",
+        "note": "Thorough tier adds translation validation on the corpus (/verif/corpus, compiled with this tree's dfir_lang, never run): paired 'tick / 'static programs (fold, unique, join) must differ exactly by an end-of-tick state write before __end_tick().",
         "technique": "generator-template analysis (syn token trees: match arms over Persistence, reset forms, prologue slots) + operator table",
     },
     "C23": {
@@ -212,7 +212,7 @@ CHECKS = {
                 "inside its own block and the pivot send_push future is awaited (syn); the subgraph list the generator iterates is subgraph_toposort() in iteration order with no reordering adaptor "
                 "on its definition chain (MIR); every operator template that builds a drain future over an input (Pull::for_each / accumulate helpers, 19 templates) awaits it. Together with "
                 "C12.drive (pivot completes only after Ended + finalize). That the precomputed toposort is right for every graph is NOT decided here (C18/C19 decide necessary conditions).",
-        "note": "Template rules are keyed on interpolation slots and runtime API names, not on formatting.",
+        "note": "Template rules are keyed on interpolation slots and runtime API names, not on formatting. Thorough tier adds the corpus rule: in every generated tick closure each instrumented subgraph future is polled to completion before the next subgraph's block and before the end-of-tick code.",
         "technique": "generator-template analysis (syn) + definition-chain (def-use) analysis on rustc MIR",
     },
     "C24": {
@@ -221,7 +221,7 @@ CHECKS = {
                 "deferred buffers < tick-level swaps < operators' tick-end code < a single top-level __end_tick(). (laziness, MIR evaluated over all four DelayType variants) the filter feeding "
                 "non_lazy_schedule_idents yields None exactly for TickLazy/LoopLazy; the tick-level swap set is exactly {Tick, TickLazy}; the back-buffer laziness flag is true exactly for *Lazy. "
                 "That deferred items arrive exactly one tick later (data flow through buffers) is NOT decided.",
-        "note": "Runner loop conditions (run_available re-enters run_tick iff the swapped flag was true) are decided under C27.",
+        "note": "Runner loop conditions (run_available re-enters run_tick iff the swapped flag was true) are decided under C27. Thorough tier adds the corpus rules on generated tick closures: one __end_tick() on every completing path outside loops, after the schedule test and the swaps; the schedule test inspects a buffer for defer_tick and is constant-false for defer_tick_lazy.",
         "technique": "who-writes + must-pass-through on rustc MIR, decision-table extraction by enum-domain evaluation of MIR closures, template order analysis (syn)",
     },
     "C26": {
